@@ -1,5 +1,11 @@
 import HeraProofs.Props.C04
+import HeraProofs.Props.C04b
 open Hera
 #print axioms convert_abstract
 #print axioms convert_regbranch
 #print axioms C04_convert_length
+#print axioms C04_pc_sum
+#print axioms C04_label_value
+#print axioms C04_codeLen_expansion
+#print axioms C04_label_is_stream_index
+#print axioms C04_dlabel_value
